@@ -516,6 +516,8 @@ class Normaliser:
                 return True
             if isinstance(n, (ast.FunctionDef, ast.AsyncFunctionDef)) and n is not fn:
                 return True
+            if isinstance(n, ast.Assign) and len(n.targets) > 1:
+                return True
             if isinstance(n, ast.Name) and isinstance(n.ctx, ast.Load) and n.id.isupper() and len(n.id) > 3 \
                     and ('DAY' in n.id or 'EPOCH' in n.id or 'TIME' in n.id or 'DELTA' in n.id or 'SECOND' in n.id
                          or 'HOUR' in n.id or 'MINUTE' in n.id or 'PERIOD' in n.id):
@@ -557,7 +559,9 @@ class Normaliser:
             self._cur_fn = fn
             c5 = self._fold_table_comprehensions(fn, mod, cls)
             c5 = self._unroll_constant_tables(fn, mod, cls) or c5
+            c5 = self._split_chained_assign(fn) or c5
             c5 = self._thread_boolean_temp(fn) or c5
+            c5 = self._thread_optional_result(fn) or c5
             c5 = self._forward_ctor_fields(fn, mod) or c5
             c5 = self._sink_splat_user(fn) or c5
             c5 = self._inline_module_value_constants(fn, mod) or c5
@@ -2105,6 +2109,95 @@ class Normaliser:
                     cond = ast.UnaryOp(op=ast.Not(), operand=e) if neg else e
                     part[-1] = ast.copy_location(ast.If(test=cond, body=clone(b.body), orelse=clone(b.orelse)), part[-1])
                 del blk[i + 1]
+                changed = True
+                break
+        return changed
+
+    def _split_chained_assign(self, fn: ast.AST) -> bool:
+        """`self.a = x = E` (one of the targets a local name): `x = E; self.a = x`"""
+        changed = False
+        for blk in list(self._blocks(fn)):
+            i = 0
+            while i < len(blk):
+                st = blk[i]
+                i += 1
+                if not (isinstance(st, ast.Assign) and len(st.targets) > 1):
+                    continue
+                names = [t for t in st.targets if isinstance(t, ast.Name)]
+                if len(names) != 1 or isinstance(st.value, (ast.Name, ast.Constant)):
+                    continue
+                holder = names[0]
+                if any(isinstance(x, ast.Name) and x.id == holder.id for t in st.targets if t is not holder for x in ast.walk(t)):
+                    continue
+                others = [t for t in st.targets if t is not holder]
+                first = ast.copy_location(ast.Assign(targets=[holder], value=st.value), st)
+                rest = [ast.copy_location(ast.Assign(targets=[t], value=ast.Name(id=holder.id, ctx=ast.Load())), st) for t in others]
+                blk[i - 1:i] = [first] + rest
+                for x in [first] + rest:
+                    ast.fix_missing_locations(x)
+                i += len(rest)
+                changed = True
+        return changed
+
+    def _thread_optional_result(self, fn: ast.AST) -> bool:
+        """an if-chain whose every leaf ends with `t = None` or `t = (a, b, ..)` (what an inlined helper that
+        returns an optional tuple leaves behind), followed by `if t is None: <jump>` and `x, y = t`: the jump
+        moves into the None leaves, the unpacking into the (single) tuple leaf as `x, y = (a, b)`"""
+        changed = False
+        for blk in list(self._blocks(fn)):
+            for i in range(len(blk) - 2):
+                a, b, c = blk[i], blk[i + 1], blk[i + 2]
+                if not (isinstance(a, ast.If) and isinstance(b, ast.If) and not b.orelse
+                        and isinstance(c, ast.Assign) and len(c.targets) == 1 and isinstance(c.targets[0], ast.Tuple)
+                        and isinstance(c.value, ast.Name)):
+                    continue
+                t = c.value.id
+                test = b.test
+                if not (isinstance(test, ast.Compare) and len(test.ops) == 1 and isinstance(test.ops[0], ast.Is)
+                        and isinstance(test.left, ast.Name) and test.left.id == t
+                        and isinstance(test.comparators[0], ast.Constant) and test.comparators[0].value is None):
+                    continue
+                if not (b.body and isinstance(b.body[-1], (ast.Return, ast.Raise, ast.Continue, ast.Break))):
+                    continue
+                loads = [x for x in ast.walk(fn) if isinstance(x, ast.Name) and x.id == t and isinstance(x.ctx, ast.Load)]
+                if len(loads) != 2:
+                    continue
+                leaves: list[list[ast.stmt]] = []
+
+                def collect(node: ast.If) -> bool:
+                    for part in (node.body, node.orelse):
+                        if not part:
+                            return False
+                        if len(part) == 1 and isinstance(part[0], ast.If) and part is node.orelse:
+                            if not collect(part[0]):
+                                return False
+                            continue
+                        last = part[-1]
+                        if isinstance(last, ast.If) and last.orelse:
+                            if not collect(last):
+                                return False
+                            continue
+                        if not (isinstance(last, ast.Assign) and len(last.targets) == 1 and isinstance(last.targets[0], ast.Name)
+                                and last.targets[0].id == t
+                                and (isinstance(last.value, ast.Tuple)
+                                     or (isinstance(last.value, ast.Constant) and last.value.value is None))):
+                            return False
+                        leaves.append(part)
+                    return True
+                if not collect(a) or not leaves:
+                    continue
+                tuples = [p_ for p_ in leaves if isinstance(p_[-1].value, ast.Tuple)]
+                if len(tuples) != 1 or len(tuples[0][-1].value.elts) != len(c.targets[0].elts):
+                    continue
+                stores = [x for x in ast.walk(fn) if isinstance(x, ast.Name) and x.id == t and isinstance(x.ctx, ast.Store)]
+                if len(stores) != len(leaves):
+                    continue
+                for part in leaves:
+                    if isinstance(part[-1].value, ast.Tuple):
+                        part[-1] = ast.copy_location(ast.Assign(targets=[clone(c.targets[0])], value=part[-1].value), part[-1])
+                    else:
+                        part[-1:] = clone(b.body)
+                del blk[i + 1:i + 3]
                 changed = True
                 break
         return changed
